@@ -368,7 +368,7 @@ def _sample(case):
 
 SUBS = [
     Sub('export-reimport', oracle, _classify, strategy=lambda tier: _cases(),
-        budget={'quick': 40, 'thorough': 900}, sample=_sample,
+        budget={'quick': 100, 'thorough': 900}, sample=_sample,
         fingerprint=lambda c: fingerprint([c['resource'], c['export_version']]),
         require_tags=('bystander:extension', 'bystander:same-ids', 'export-1.0', 'export-1.3')),
 ]
